@@ -17,6 +17,7 @@ import (
 	"github.com/dave/dst"
 	"github.com/dave/dst/decorator"
 	"github.com/dave/dst/decorator/resolver"
+	"github.com/dave/dst/decorator/resolver/goast"
 	"github.com/dave/dst/decorator/resolver/gotypes"
 	"github.com/dave/dst/decorator/resolver/guess"
 	"github.com/dave/dst/decorator/resolver/simple"
@@ -45,6 +46,7 @@ type Case struct {
 	Pkgs    map[string]map[string]string `json:"pkgs"` // package path -> file name -> source
 	Moves   []Move                       `json:"moves"`
 	RestRes int                          `json:"rest_resolver"`
+	DecRes  int                          `json:"dec_resolver,omitempty"` // 0: gotypes; 1: the syntax-based goast resolver (accurate names) for files without dot-imports
 }
 
 var pkgName = map[string]string{"example.com/root": "root", "example.com/other": "other"}
@@ -186,8 +188,19 @@ func check(t h.TB, c Case) {
 				}
 			}
 		}
+		tdec := dec
 		for fn, af := range ck.Files {
 			var df *dst.File
+			dec := tdec
+			if c.DecRes == 1 {
+				dot := false
+				for _, is := range af.Imports {
+					dot = dot || (is.Name != nil && is.Name.Name == ".")
+				}
+				if !dot {
+					dec = decorator.NewDecoratorWithImports(ck.Fset, path, goast.WithResolver(simple.New(p.Names)))
+				}
+			}
 			h.Guard(t, sub, c, func() { df, err = dec.DecorateFile(af) })
 			if err != nil {
 				h.Fail(t, sub, c, "DecorateFile(%s): %v", fn, err)
@@ -408,7 +421,7 @@ func dump(files map[string]string) string {
 func genCase(t *rapid.T) (Case, bool) {
 	const sub = "Move"
 	p := gen.GenProg(t, 2, 2)
-	c := Case{Libs: p.Libs, Pkgs: map[string]map[string]string{}, RestRes: rapid.IntRange(0, 1).Draw(t, "rest")}
+	c := Case{Libs: p.Libs, Pkgs: map[string]map[string]string{}, RestRes: rapid.IntRange(0, 1).Draw(t, "rest"), DecRes: rapid.IntRange(0, 2).Draw(t, "dec") / 2}
 	var fn []string
 	for _, f := range p.Files {
 		if c.Pkgs[f.PkgPath] == nil {
@@ -456,7 +469,7 @@ func genCase(t *rapid.T) (Case, bool) {
 		}
 	}
 	if differ {
-		h.NonTrivial(sub, fmt.Sprint(c.Pkgs), fmt.Sprint(c.Moves, c.RestRes))
+		h.NonTrivial(sub, fmt.Sprint(c.Pkgs), fmt.Sprint(c.Moves, c.RestRes, c.DecRes))
 	}
 	_ = cross
 	h.Sample(sub, map[string]any{"files": fn, "moves": c.Moves})
